@@ -50,13 +50,27 @@ Definition handlePermissions (permsOK : bool) (opw upw : list N) (mode P R : Z) 
   else if negb (hasNeededPermissions mode P R) then Denied
   else Proceed.
 
+(* crypto.go: validateOwnerPassword(ctx)
+     if e.R == 5 { return validateOwnerPasswordAES256(ctx) }
+     if e.R == 6 { return validateOwnerPasswordAES256Rev6(ctx) }
+     ... (R 2,3,4: Algorithm 7)
+   ownerMatches is the cryptographic part (the supplied string, prepared, hashes to /O resp. decrypts /O to
+   the user password): an input of the model.  What is modelled is the guard the two AES-256 functions
+   start with (Generated.*_noOwnerPW, extracted from the source): when NO owner password is supplied the
+   owner is not authenticated even if the document's owner password is the empty string. *)
+Definition validateOwnerPassword (R : Z) (opw : list N) (ownerMatches : bool) : bool :=
+  if R =? 5 then (if validateOwnerPasswordAES256_noOwnerPW opw then false else ownerMatches)
+  else if R =? 6 then (if validateOwnerPasswordAES256Rev6_noOwnerPW opw then false else ownerMatches)
+  else ownerMatches.
+
 (* read.go: setupEncryptionKey(ctx, d), after the encryption dictionary has been parsed.
      ownerOK = validateOwnerPassword(ctx), userOK = validateUserPassword(ctx)
      if !ownerOK && needsOwnerAndUserPassword(cmd) { return ErrOwnerPasswordRequired }
      if ownerOK && !needsOwnerAndUserPassword(cmd) { validatePermissions ...; return nil }
      if !userOK { return ErrWrongPassword }
      return handlePermissions(ctx) *)
-Definition setupAccess (ownerOK userOK permsOK : bool) (opw upw : list N) (mode P R : Z) : outcome :=
+Definition setupAccess (ownerMatches userOK permsOK : bool) (opw upw : list N) (mode P R : Z) : outcome :=
+  let ownerOK := validateOwnerPassword R opw ownerMatches in
   if negb ownerOK && needsOwnerAndUserPassword mode then OwnerRequired
   else if ownerOK && negb (needsOwnerAndUserPassword mode) then
     (if permsOK then Proceed else InvalidPerms)
@@ -71,10 +85,10 @@ Definition handleUnencryptedFile (opw : list N) (mode : Z) : outcome :=
   else Proceed.
 
 (* read.go: checkForEncryption(c, ctx); encrypted = (ctx.Encrypt != nil) *)
-Definition checkForEncryption (encrypted ownerOK userOK permsOK : bool) (opw upw : list N) (mode P R : Z) : outcome :=
+Definition checkForEncryption (encrypted ownerMatches userOK permsOK : bool) (opw upw : list N) (mode P R : Z) : outcome :=
   if negb encrypted then handleUnencryptedFile opw mode
   else if rejectsEncrypted mode then EncryptedUnsupported
-  else setupAccess ownerOK userOK permsOK opw upw mode P R.
+  else setupAccess ownerMatches userOK permsOK opw upw mode P R.
 
 (* The situation the property talks about: an encrypted document, opened with its non-empty user
    password only (the owner password is not supplied or wrong), /Perms consistent.  The witness user
